@@ -126,6 +126,13 @@ func (w *zstdByteStreamWriter) Write(p []byte) (int, error) {
 		WriteOffset:  w.writeOffset,
 		Data:         p,
 	}); err != nil {
+		if err == io.EOF {
+			// The server terminated the call. Obtain the
+			// status it returned.
+			if _, recvErr := w.client.CloseAndRecv(); recvErr != nil {
+				err = recvErr
+			}
+		}
 		return 0, err
 	}
 	w.writeOffset += int64(len(p))
@@ -139,8 +146,11 @@ func (w *zstdByteStreamWriter) Close() error {
 		WriteOffset:  w.writeOffset,
 		FinishWrite:  true,
 	}); err != nil {
+		_, recvErr := w.client.CloseAndRecv()
 		w.cancel()
-		w.client.CloseAndRecv()
+		if err == io.EOF && recvErr != nil {
+			return recvErr
+		}
 		return err
 	}
 	_, err := w.client.CloseAndRecv()
